@@ -96,6 +96,8 @@ def body_geometry(env):
             env.eq('duct %d: wall distance d[wall] = thickness' % i, d['wall'][i], duct['thickness'][i])
             env.gt('duct %d: inner corner length positive' % i, d['wcorner'][i, 0], 0)
             env.gt('duct %d: corner length grows outward' % i, d['wcorner'][i, 1], d['wcorner'][i, 0])
+            if i:
+                env.gt('duct %d: inner corner length exceeds the outer one of duct %d' % (i, i - 1), d['wcorner'][i, 0], d['wcorner'][i - 1, 1])
             env.eq('duct %d: heated corner area = 2 t wc_out' % i, duct['q_area'][i][1], 2 * duct['thickness'][i] * d['wcorner'][i][1])
         if nduct > 1:
             byp = g['bypass_params']
